@@ -58,6 +58,8 @@ pub enum Op {
     /// resize(lines, columns)
     Resize(P, P),
     Display,
+    /// the embedder clears the public `dirty` set (not a listener call)
+    ClearDirty,
     /// chars through memterm::parser::Parser, one feed() per chunk; bool = utf8 mode
     Feed(Vec<String>, bool),
     /// bytes through memterm::byte_parser::ByteParser, one feed() per chunk; bool = utf8 mode
@@ -110,6 +112,7 @@ impl Op {
             SetMargins(..) => "set_margins",
             Resize(..) => "resize",
             Display => "display",
+            ClearDirty => "clear_dirty",
             Feed(..) => "feed",
             FeedBytes(..) => "feed_bytes",
         }
@@ -190,6 +193,7 @@ impl Op {
             "set_margins" => SetMargins(p("a"), p("b")),
             "resize" => Resize(p("a"), p("b")),
             "display" => Display,
+            "clear_dirty" => ClearDirty,
             "feed" => Feed(
                 v.get("chunks")?
                     .as_array()?
@@ -389,6 +393,7 @@ fn apply_raw(s: &mut Screen, op: &Op) -> Option<Vec<String>> {
         SetMargins(a, b) => s.set_margins(*a, *b),
         Resize(a, b) => s.resize(*a, *b),
         Display => return Some(s.display()),
+        ClearDirty => s.dirty.clear(),
         Feed(chunks, utf8) => {
             let arc = Arc::new(Mutex::new(s.clone()));
             {
